@@ -33,7 +33,7 @@ def fam_tq(k):
 
 def run(ck):
     q = ck.quick()
-    Q = scope.q_scope(ck, 5, 6, [4], minv=1) + scope.q_scope(ck, 4 if q else 6, 8, [6], minv=1) + scope.q_scope(ck, 4 if q else 5, 7, [12], minv=1)
+    Q = scope.q_scope(ck, 5, 6, [4], minv=1) + scope.q_scope(ck, 4 if q else 6, 8, [6], minv=1) + scope.q_scope(ck, 4 if q else 5, 7, [12], minv=1) + scope.q_scope(ck, 4 if q else 5, 7, [5, 7], minv=1)
     ck.exhaustive = True
     groups = []
     for g in Q:
@@ -45,7 +45,7 @@ def run(ck):
         g = dict(g)
         g["calls"] = [pcall(a, "list", extra=False) for a in COVERS]
         groups.append(g)
-    ck.rule = ("TLC enumerates every arrival sequence of <=5 positive values (up to C+2) for C in {4,6,12}; decreasing, two-thirds and three-quarters executed "
+    ck.rule = ("TLC enumerates every arrival sequence of <=5 positive values (up to C+2) for C in {4,5,6,7,12}; decreasing, two-thirds and three-quarters executed "
                "on each; the number of covered bins judged against Oracles.MaxCover (subset DP in TLA+); seeded families <=12 items; the published worst-case "
                "families generalised in k (witness cover checked by TLC); planted exact covers up to 300 items (TLC-certified OPT = total/C). "
                "non-trivial = distinct (sequence, C) with >=2 items")
